@@ -117,7 +117,7 @@ def run_history(lines, tracks, attached, hist, initial="dense"):
     if attached:
         proj = rv.Project()
         proj.new_module(rv.m.Amplifier)
-        if attached == "rich":
+        if attached in ("rich", "rich-saved"):
             # the pattern lives in a FULL project: one module of every type (arrays, waveforms, an embedded project, a
             # sampler with a sample and an effect), links, another pattern and a clone of it -- a bulk edit that copies
             # or walks more than the pattern itself meets all of it
@@ -138,6 +138,11 @@ def run_history(lines, tracks, attached, hist, initial="dense"):
             proj.attach_pattern(rv.Pattern(lines=2, tracks=2))
             proj.attach_pattern(rv.PatternClone(source=0))
         proj.attach_pattern(pat)
+        if attached == "rich-saved":
+            # ... and the project has been serialised and cloned once before the first bulk edit (whatever a save leaves
+            # behind in the modules is then part of what the edit may meet)
+            proj.read()
+            proj.clone()
     # start from a non-empty pattern so "keeps previous content" is observable
     if initial == "untouched":
         # a freshly constructed pattern whose note grid has NEVER been read or written before the first bulk
@@ -172,6 +177,14 @@ def run_history(lines, tracks, attached, hist, initial="dense"):
         else:
             if got != expected:
                 vs.append(C.viol("successful-edit-wrong-content", key, {"expected": expected, "observed": got, "step": i}, case))
+                break
+            # the pattern's byte image is the documented packing of exactly those cells (note, velocity, module,
+            # controller/effect word, parameter word; little endian) -- packed here, not by the library
+            from struct import pack
+
+            image = b"".join(pack("<BBHHH", *cell) for row in expected for cell in row)
+            if pat.raw_data != image:
+                vs.append(C.viol("successful-edit-wrong-bytes", key, {"step": i}, case))
                 break
             if len(pat.data) != lines or any(len(r) != tracks for r in pat.data):
                 vs.append(C.viol("shape-changed", key, {}, case))
@@ -231,10 +244,10 @@ def run(ctx):
             else:
                 d = depth
             n = len(op_list(lines, tracks))
-            for attached in (False, True) + (("rich",) if (lines, tracks) == (2, 2) else ()):
+            for attached in (False, True) + (("rich", "rich-saved") if (lines, tracks) == (2, 2) else ()):
                 step = 4 if d == 3 else 16
                 for lo in range(0, n, step):
-                    tasks.append((lines, tracks, attached, 1 if attached == "rich" else d, lo, min(n, lo + step)))
+                    tasks.append((lines, tracks, attached, 1 if attached in ("rich", "rich-saved") else d, lo, min(n, lo + step)))
     from rvmc.runner import rotate
 
     agg = C.Agg()
